@@ -163,7 +163,7 @@ pub fn seeds() -> Vec<Seed> {
         for (k, a) in vx_data::reduced_atoms().into_iter().enumerate() {
             let label = format!("{}:{}:{}", a.vr, a.shape, a.tclass);
             let nodes = vx_data::normalize(vec![Node::Prim(a)]).unwrap();
-            out.push(Seed { name: format!("ds/{tn}/atom{k}[{label}]"), kind: Kind::DataSet(ti), bytes: ds_bytes(ti, &nodes, 0), windows: vec![(0, 16, k == 0 || k == 11)] });
+            out.push(Seed { name: format!("ds/{tn}/atom{k}[{label}]"), kind: Kind::DataSet(ti), bytes: ds_bytes(ti, &nodes, 0), windows: vec![(0, 16, ti == 1 && (k == 0 || k == 11))] });
         }
         let n = nested_nodes();
         let nc = vx_data::count_containers(&n);
